@@ -582,6 +582,8 @@ class Interp:
         return self.get_attr(v, n.attr, fr, n)
 
     def get_attr(self, v, name, fr, node=None):
+        if isinstance(v, SpecOpt):
+            v = v.value  # spec mode: attribute of an optional value (meaningful under a not-None guard)
         if isinstance(v, ModuleVal):
             if v.external:
                 return self.lib.external_name(f"{v.name}.{name}")
@@ -799,6 +801,8 @@ class Interp:
 
     def run_function(self, f, args, kwargs, fr, node=None):
         ct = self.w.contracts.get(f.qualname) if self.use_contracts else None
+        if callable(ct) and not hasattr(ct, "qualname"):
+            ct = ct(self, f, args, kwargs)  # contract selected by the shape of the actual arguments
         if isinstance(ct, dict):  # receiver-dependent contract (handlers: one per protocol version)
             recv = args[0] if args and isinstance(args[0], ClassVal) else None
             ct = ct.get(recv.module.rsplit("_", 1)[-1]) if recv is not None else None
